@@ -271,6 +271,9 @@ class Executor:
         lE = z3.Int(f"tr_lenE!{next(self.fresh)}")
         s.pc.append(inv(n, cE, aE, lE))
         s.pc.append(n >= 0)
+        # two ground instances of the exit invariant (first and last delivery): consequences of the line above, spelled out
+        # because quantifier instantiation on `len0 + j` is fragile in the solver
+        s.pc.append(z3.Implies(n > 0, z3.And(cE[len0] == L[0], aE[len0] == arg.ident, cE[len0 + n - 1] == L[n - 1], aE[len0 + n - 1] == arg.ident)))
         s.tr_callee, s.tr_arg, s.tr_len = cE, aE, lE
         s.events.append(Event(f"loop-deliveries:{call.func.attr}", [it, arg], s.pc, kind="loop"))
         return [s]
